@@ -382,7 +382,9 @@ func TestVerifC20(t *testing.T) {
 		} else {
 			dir = filepath.Join(scratch, fmt.Sprintf("tree%d", c.id))
 			os.RemoveAll(dir)
-			for _, f := range verifDecodeTree(cur) {
+			linkDir := filepath.Join(scratch, fmt.Sprintf("links%d", c.id))
+			os.RemoveAll(linkDir)
+			for fi, f := range verifDecodeTree(cur) {
 				d := filepath.Join(append([]string{dir}, f.dir...)...)
 				if err := os.MkdirAll(d, 0o755); err != nil {
 					t.Fatal(err)
@@ -393,11 +395,25 @@ func TestVerifC20(t *testing.T) {
 						t.Fatalf("case %d: generated file %s does not parse: %v\n%s", c.id, f.name, err, src)
 					}
 				}
+				// every fourth file is present in the tree as a symbolic link to a regular file kept outside it
+				// (the Go tool chain compiles such files like any other)
+				if (c.id+fi)%4 == 0 {
+					os.MkdirAll(linkDir, 0o755)
+					target := filepath.Join(linkDir, fmt.Sprintf("f%d_%s", fi, f.name))
+					if err := os.WriteFile(target, []byte(src), 0o644); err != nil {
+						t.Fatal(err)
+					}
+					if err := os.Symlink(target, filepath.Join(d, f.name)); err != nil {
+						t.Fatal(err)
+					}
+					continue
+				}
 				if err := os.WriteFile(filepath.Join(d, f.name), []byte(src), 0o644); err != nil {
 					t.Fatal(err)
 				}
 			}
 			os.MkdirAll(dir, 0o755)
+			defer os.RemoveAll(linkDir)
 		}
 		var runs [][][2]string
 		for k := 0; k < verifC20Runs; k++ {
